@@ -788,3 +788,57 @@ func init() {
 	externals["unicode/utf8.DecodeRune"] = dec
 	externals["unicode/utf8.DecodeRuneInString"] = dec
 }
+
+// ---- net.ParseIP / net.ParseCIDR: textual parsing is outside the claim. The harness
+// registers, per concrete token string, what the parser returns (symbolic bytes).
+
+type cidrStub struct {
+	ip, netIP, mask value
+}
+
+func init() {
+	harnessAPI["vpIPToken"] = func(fr *frame, args []value) value {
+		name, _ := args[0].(string)
+		tok := "vp-ip-" + name
+		fr.i.path.fs["parseip:"+tok] = args[1]
+		return tok
+	}
+	harnessAPI["vpBadToken"] = func(fr *frame, args []value) value {
+		name, _ := args[0].(string)
+		if b, ok := args[1].(bool); ok && b {
+			return "vp-bad-" + name + "/"
+		}
+		return "vp-bad-" + name
+	}
+	harnessAPI["vpCIDRToken"] = func(fr *frame, args []value) value {
+		name, _ := args[0].(string)
+		tok := "vp-cidr-" + name + "/"
+		fr.i.path.fs["parsecidr:"+tok] = cidrStub{ip: args[1], netIP: args[2], mask: args[3]}
+		return tok
+	}
+	externals["net.ParseIP"] = func(fr *frame, args []value) value {
+		s, ok := args[0].(string)
+		if !ok {
+			fr.i.abort("unsupported", "net.ParseIP of a string with symbolic bytes")
+		}
+		if v, ok := fr.i.path.fs["parseip:"+s]; ok {
+			return append([]value(nil), v.([]value)...)
+		}
+		if s == "127.0.0.1" {
+			return []value{byte(0), byte(0), byte(0), byte(0), byte(0), byte(0), byte(0), byte(0), byte(0), byte(0), byte(0xff), byte(0xff), byte(127), byte(0), byte(0), byte(1)}
+		}
+		return []value(nil)
+	}
+	externals["net.ParseCIDR"] = func(fr *frame, args []value) value {
+		s, ok := args[0].(string)
+		if !ok {
+			fr.i.abort("unsupported", "net.ParseCIDR of a string with symbolic bytes")
+		}
+		if v, ok := fr.i.path.fs["parsecidr:"+s]; ok {
+			st := v.(cidrStub)
+			var n value = structure{append([]value(nil), st.netIP.([]value)...), append([]value(nil), st.mask.([]value)...)}
+			return tuple{append([]value(nil), st.ip.([]value)...), &n, iface{}}
+		}
+		return tuple{[]value(nil), (*value)(nil), fr.i.newError("invalid CIDR address: " + s)}
+	}
+}
